@@ -13,6 +13,10 @@ def implies(a, b):
     return (not a) or bool(b)
 
 
+def prefix_of(a, b):
+    return b[: len(a)] == a
+
+
 def or_empty(x):
     return [] if x is None else x
 
